@@ -1269,3 +1269,82 @@ Proof.
   apply in_map_iff in K as (e & Ke & He). exists e. split; [exact He|].
   unfold skey in Ke. injection Ke as K1 K2. rewrite K1. exact Hc.
 Qed.
+
+(* =========================================================================================== *)
+(* Part 9.  Independence of the order of the node's answer and of the goroutine schedule.      *)
+From Coq Require Import Sorting.Permutation.
+
+Definition dtriple (d : duty) : N * N * N := (d_slot d, d_comm d, d_val d).
+
+Lemma dle_antisym_triple : forall a b, dle a b -> dle b a -> dtriple a = dtriple b.
+Proof.
+  intros a b H1 H2. unfold dle in *. rewrite duty_leb_iff in H1, H2. unfold dtriple.
+  assert (d_slot a = d_slot b) by lia. assert (d_comm a = d_comm b) by lia. assert (d_val a = d_val b) by lia.
+  congruence.
+Qed.
+
+Lemma sorted_perm_eq : forall l1 l2,
+  StronglySorted dle l1 -> StronglySorted dle l2 -> Permutation l1 l2 -> NoDup (map dtriple l1) -> l1 = l2.
+Proof.
+  induction l1 as [|x l1 IH]; intros l2 S1 S2 P ND.
+  - apply Permutation_nil in P. subst. reflexivity.
+  - destruct l2 as [|y l2]; [apply Permutation_sym, Permutation_nil in P; discriminate|].
+    inversion S1 as [|? ? S1' F1]; subst. inversion S2 as [|? ? S2' F2]; subst.
+    rewrite Forall_forall in F1, F2.
+    assert (Exy : x = y).
+    { assert (Hy : In y (x :: l1)) by (eapply Permutation_in; [apply Permutation_sym, P|left; reflexivity]).
+      assert (Hx : In x (y :: l2)) by (eapply Permutation_in; [exact P|left; reflexivity]).
+      destruct Hy as [Hy|Hy]; [exact Hy|]. destruct Hx as [Hx|Hx]; [symmetry; exact Hx|].
+      apply (nodup_key_unique dtriple (x :: l1)); [exact ND|left; reflexivity|right; exact Hy|].
+      apply dle_antisym_triple; [apply F1; exact Hy|apply F2; exact Hx]. }
+    subst y. f_equal. apply IH; try assumption.
+    + eapply Permutation_cons_inv. exact P.
+    + cbn [map] in ND. inversion ND. assumption.
+Qed.
+
+Lemma insert_duty_perm : forall x l, Permutation (insert_duty x l) (x :: l).
+Proof.
+  intros x l. induction l as [|y l IH]; cbn [insert_duty]; [apply Permutation_refl|].
+  destruct (duty_leb x y); [apply Permutation_refl|].
+  eapply Permutation_trans; [apply perm_skip; exact IH|apply perm_swap].
+Qed.
+
+Lemma sort_duties_perm : forall l, Permutation (sort_duties l) l.
+Proof.
+  intro l. unfold sort_duties. induction l as [|x l IH]; cbn [fold_right]; [apply Permutation_refl|].
+  eapply Permutation_trans; [apply insert_duty_perm|apply perm_skip; exact IH].
+Qed.
+
+(* the node's answer in any order (and whatever an unstable sort does) gives the same information,
+   provided no validator is listed twice for the same slot and committee *)
+Lemma info_order_independent : forall t ok ds ds',
+  Permutation ds ds' -> NoDup (map dtriple ds) ->
+  subscription_info t ok ds = subscription_info t ok ds'.
+Proof.
+  intros t ok ds ds' P ND. unfold subscription_info.
+  assert (E : sort_duties ds = sort_duties ds').
+  { apply sorted_perm_eq; try apply sort_sorted.
+    - eapply Permutation_trans; [apply sort_duties_perm|].
+      eapply Permutation_trans; [exact P|apply Permutation_sym, sort_duties_perm].
+    - eapply Permutation_NoDup; [apply Permutation_sym, Permutation_map, sort_duties_perm|exact ND]. }
+  rewrite E. reflexivity.
+Qed.
+
+(* The goroutines of calculateSubscriptionInfo (one per slot, each walking its validators in
+   order): every schedule -- every interleaving [M'] of the per-slot walks -- records the same
+   entry for every pair.  ([M] is the walk in MergeDuties' order the model uses.) *)
+Lemma filter_filter : forall {A} (f g : A -> bool) l, filter f (filter g l) = filter (fun x => g x && f x) l.
+Proof.
+  intros A f g l. induction l as [|x l IH]; cbn [filter]; [reflexivity|].
+  destruct (g x); cbn [filter andb]; [destruct (f x)|]; rewrite IH; reflexivity.
+Qed.
+
+Lemma info_schedule_independent : forall t L M M' s c,
+  (forall s, filter (same_slot s) M' = filter (same_slot s) M) ->
+  find_sub s c (fold_left (add_member t L) M' []) = find_sub s c (fold_left (add_member t L) M []).
+Proof.
+  intros t L M M' s c H. rewrite !find_fold_add_member. f_equal.
+  assert (E : forall l, filter (same_key s c) l = filter (fun d => d_comm d =? c) (filter (same_slot s) l)).
+  { intro l. rewrite filter_filter. reflexivity. }
+  rewrite (E M'), (E M), H. reflexivity.
+Qed.
